@@ -631,6 +631,44 @@ async fn fault_case(ctx: &mut Ctx, case: u64, rng: &mut Rng) {
             }
         }
     }
+    // A peer whose clock is ahead (added after seeded change agent-C10-9): one pair in three is also
+    // run with the initiator holding 1..3 entries it accepted while its clock was half an hour ahead.
+    // The acceptor refuses them (more than ten minutes in the future); the session still succeeds on
+    // both sides, and what one side counts as sent the other counts as received, refused or not.
+    if case % 3 == 0 {
+        let now = std::time::SystemTime::now().duration_since(std::time::UNIX_EPOCH).unwrap().as_micros() as u64;
+        let n_future = rng.range(1, 3);
+        let future: Vec<SignedEntry> = (0..n_future).map(|i| uni.entry(rng.below(uni.authors.len()), &[b'z', i as u8], now + 1_800_000_000 + i as u64, Some(i % 4))).collect();
+        let mut sa = mk(&ea);
+        iroh_docs::verif::set_clock(now + 1_800_000_000);
+        for e in &future {
+            offer_remote(&mut sa, ns, e);
+        }
+        iroh_docs::verif::set_clock(0);
+        let (ha, hb) = (act::spawn(sa), act::spawn(mk(&eb)));
+        for h in [&ha, &hb] {
+            let _ = h.open(ns, OpenOpts::default().sync()).await;
+        }
+        let held = act::dump(&ha, ns).await.unwrap_or_default().iter().filter(|e| e.timestamp() > now + 600_000_000).count();
+        let r = one_session(&ha, &hb, ns, Fault::None, usize::MAX, true).await;
+        ctx.count("sessions_with_the_initiator_clock_ahead", 1);
+        let d = |extra: serde_json::Value| json!({"a0": a0.short(), "b0": b0.short(), "entries_from_the_future_held_by_the_initiator": held, "extra": extra});
+        if r.alice != End::Ok || r.bob != End::Ok {
+            ctx.violation(case, "session-with-refused-entries-did-not-succeed", d(json!({"alice": format!("{:?}", r.alice), "bob": format!("{:?}", r.bob)})));
+        } else if let Some((ca, cb)) = r.counts {
+            if ca.0 != cb.1 || ca.1 != cb.0 {
+                ctx.violation(case, "sent-received-counts-not-mirrored[entries refused by the receiver]", d(json!({"alice": ca, "bob": cb})));
+            }
+            let b1 = act::dump(&hb, ns).await.unwrap_or_default();
+            if b1.iter().any(|e| e.timestamp() > now + 600_000_000) {
+                ctx.violation(case, "entry-from-the-future-stored-by-the-acceptor", d(json!({})));
+            } else if held > 0 {
+                ctx.count("sessions_in_which_the_acceptor_refused_entries", 1);
+            }
+        }
+        let _ = ha.shutdown().await;
+        let _ = hb.shutdown().await;
+    }
     let k = base.frames_forwarded;
     ctx.distinct("transcript_lengths", k as u64);
     if k >= 3 {
